@@ -601,3 +601,88 @@ def memory_deviation(ft, data, bypath):
     except Exception:
         return None
     return None
+
+
+# ------------------------------------------------------------------ round 2: pairs of fields, references, post-parse failures
+def pair_family(data, fields, pairs, rs, limit=None):
+    """(how, bytes): two ADJACENT fixed-width fields take a pair of (large) value classes together - a bound that a
+    loader takes from one corruptible field to judge the next one (declared total length / chunk length)"""
+    adj = [(a, b) for a in fields for b in fields if a[0] + a[1] == b[0]]
+    for a, b in adj:
+        combos = [(ca, cb) for ca, cb in pairs]
+        if limit is not None and len(combos) > limit:
+            combos = [combos[i] for i in rs.choice(len(combos), size=limit, replace=False)]
+        for ca, cb in combos:
+            va = int_value(ca, get_field(data, a)) % (1 << (8 * a[1]))
+            vb = int_value(cb, get_field(data, b)) % (1 << (8 * b[1]))
+            yield ({"fields_at": [a[0], b[0]], "classes": [class_name(ca), class_name(cb)]},
+                   set_field(set_field(data, a, va), b, vb))
+
+
+REF_ATTR = re.compile(rb'([\w:]+)\s*=\s*"(#?)([^"#<>]{1,40})"')
+
+
+def reference_family(key, data, rs, limit=None):
+    """(how, bytes): in an XML payload every attribute that refers to an id defined in the same payload (3MF objectid,
+    collada url / source / target ...) is pointed at every other defined id, its own element's included, so that
+    reference graphs with cycles, self references and dangling types reach the loader; container re-framed"""
+    sp = split(key, data)
+    if sp is None:
+        return
+    payload, rewrap = sp
+    if b"<" not in payload[:200]:
+        return
+    attrs = list(REF_ATTR.finditer(payload))
+    ids = []
+    for m in attrs:
+        if m.group(1).lower() in (b"id", b"xml:id") and m.group(3) not in ids:
+            ids.append(m.group(3))
+    # a reference: an attribute named ...id (objectid, pid, ...) or written "#name", whose value is a defined id
+    # (vertex indices v1/v2/v3 that happen to equal an id are not references)
+    refs = [m for m in attrs if m.group(1).lower() not in (b"id", b"xml:id") and m.group(3) in ids
+            and (m.group(1).lower().endswith(b"id") or m.group(2) == b"#")]
+    combos = [(m, i) for m in refs for i in ids if i != m.group(3)]
+    if limit is not None and len(combos) > limit:
+        combos = [combos[i] for i in sorted(rs.choice(len(combos), size=limit, replace=False))]
+    for m, i in combos:
+        a, b = m.span(3)
+        yield ({"reference": m.group(1).decode(), "at": a, "was": m.group(3).decode(), "to": i.decode()},
+               rewrap(payload[:a] + i + payload[b:]))
+
+
+def assembly_seeds(tm):
+    """valid files whose inner structure has references between parts: an instanced, nested scene"""
+    out = {}
+    T = tm.transformations.translation_matrix
+    box = tm.creation.box(extents=[1, 2, 3])
+    scene = tm.Scene()
+    scene.add_geometry(box, node_name="a", geom_name="box", transform=T([1, 0, 0]))
+    scene.add_geometry(box, node_name="b", geom_name="box", parent_node_name="a", transform=T([3, 0, 0]))
+    scene.add_geometry(tm.creation.icosphere(subdivisions=0), node_name="c", geom_name="ball", parent_node_name="b", transform=T([0, 2, 0]))
+    for ft in ("3mf", "glb", "dae"):
+        try:
+            d = scene.export(file_type=ft)
+            if isinstance(d, (bytes, bytearray)) and len(d) > 0:
+                out[ft + "@assembly"] = bytes(d)
+        except BaseException:
+            pass
+    return out
+
+
+POST_PARSE_REALS = ("nan", "inf", "neginf", "huge", "max")
+
+
+def post_parse_family(key, data, reals, rs, limit):
+    """(how, bytes): values that still PARSE but make the construction of the geometry object fail afterwards
+    (non-finite / overflowing coordinates): the failure comes after the format loader has returned"""
+    sp = split(key, data)
+    if sp is None:
+        return
+    payload, rewrap = sp
+    toks = [t for t in numeric_tokens(payload) if t[2] == "real"]
+    if len(toks) > limit:
+        toks = toks[:limit // 2] + [toks[i] for i in sorted(rs.choice(np_range(limit // 2, len(toks)), size=limit - limit // 2, replace=False))]
+    for t in toks:
+        for nm in reals:
+            if nm in POST_PARSE_REALS:
+                yield {"token_at": t[0], "was": t[3].decode()[:20], "real_class": nm}, rewrap(replace(payload, t, real_value(nm)))
